@@ -48,8 +48,10 @@ class Recorder(object):
         self.metrics = {}
 
     def ob(self, rule, construct, ok, expected='', found='', func=None,
-           node=None, path=None, nontrivial=True):
+           node=None, path=None, nontrivial=True, loc=None):
         file = line = None
+        if loc is not None:
+            file, line = loc
         if func is not None:
             file = func.file
             line = getattr(node, 'lineno', None) or func.line
